@@ -232,7 +232,7 @@ class Path(object):
 
 class Config(object):
     def __init__(self, maxdepth=3, maxpaths=4000, inline=None, may_raise=None, assume_asserts=True,
-                 inline_init=True, unroll=1, fork_handlers=True, immediate_callbacks=False, loads=()):
+                 inline_init=True, unroll=1, fork_handlers=True, immediate_callbacks=False, loads=(), record_field_types=False):
         self.maxdepth = maxdepth
         self.maxpaths = maxpaths
         self.inline = inline  # fn(fi, ev, path) -> bool ; None = default policy
@@ -243,6 +243,10 @@ class Config(object):
         self.fork_handlers = fork_handlers
         self.immediate_callbacks = immediate_callbacks
         self.loads = tuple(loads)  # attribute names whose reads are recorded as "load" events
+        # resolve calls on fields of records taken out of containers (job.future.cancel()) through the container's
+        # element class: wanted by the lock analysis (which must see the locks taken inside), not by the rules that
+        # treat such a call as one event of the future protocol
+        self.record_field_types = record_field_types
 
 
 LOG_METHODS = {"debug", "info", "warning", "error", "exception", "critical"}
@@ -1131,6 +1135,17 @@ class Interp(object):
                     return v[1] != "is"
                 if y == NONE and isinstance(x, tuple) and x[0] == "const" and x[1] is not None:
                     return v[1] != "is"
+                # an element of a container that only ever receives instances of package classes is not None
+                if y == NONE and isinstance(x, tuple) and x[0] == "elem":
+                    t = self.elem_type(x, path)
+                    if t and t.startswith("C:"):
+                        return v[1] != "is"
+                # a value that took part in an ordered comparison on this path (x <= now) is not None: in python 3
+                # ordering None raises TypeError
+                if y == NONE and isinstance(x, tuple) and x[0] in ("attr", "call", "bin", "sub", "param"):
+                    for t in path.assume:
+                        if isinstance(t, tuple) and t and t[0] == "cmp" and t[1] in ("<", "<=", ">", ">=") and (t[2] == x or t[3] == x):
+                            return v[1] != "is"
         if k == "cmp" and v[1] in ("==", "!=") and v[2][0] == "const" and v[3][0] == "const":
             return (v[2][1] == v[3][1]) == (v[1] == "==")
         return None
@@ -1969,6 +1984,9 @@ class Interp(object):
             if v in path.heap:
                 return self.type_of(path.heap[v], path, depth + 1)
             bt = self.type_of(v[1], path, depth + 1)
+            if bt is None and self.cfg.record_field_types and isinstance(v[1], tuple) and v[1] and v[1][0] == "elem":
+                # a field of a record taken from a container whose element class is known (job.future)
+                bt = self.elem_type(v[1], path)
             if bt and bt.startswith("C:"):
                 ci = self.prog.classes.get(bt[2:])
                 if ci is not None:
